@@ -232,6 +232,7 @@ type stressRecord struct {
 	T     node   `json:"t,omitempty"`
 	Out   string `json:"out,omitempty"`
 	N     int    `json:"n,omitempty"`
+	Idx   int    `json:"idx"`
 }
 
 // concStressChild: args = [seed, goroutines, opsPerGoroutine, outFile]
@@ -264,17 +265,23 @@ func concStressChild(args []string) int {
 		sects = append(sects, stressRecord{Op: "sect", Seq: n, Sec: sec, Ph: ph})
 		mu.Unlock()
 	})
-	// shared state: one codec for SColl-like records, shared by all goroutines
-	type rec = SColl
-	sch, err := avro.SchemaForType(rec{})
-	if err != nil {
-		return 2
+	// shared state: one codec per record type (collections; times and null.* wrappers), shared by all goroutines
+	sharedTypes := []reflect.Type{reflect.TypeOf(SColl{}), reflect.TypeOf(STime{})}
+	var sharedCodecs []avro.Codec
+	var schemaTexts []string
+	for _, t := range sharedTypes {
+		zero := reflect.New(t).Elem().Interface()
+		sch, err := avro.SchemaForType(zero)
+		if err != nil {
+			return 2
+		}
+		cd, err := sch.Codec(zero)
+		if err != nil {
+			return 2
+		}
+		sj, _ := sch.Marshal()
+		sharedCodecs, schemaTexts = append(sharedCodecs, cd), append(schemaTexts, string(sj))
 	}
-	shared, err := sch.Codec(rec{})
-	if err != nil {
-		return 2
-	}
-	schemaJSON, _ := sch.Marshal()
 	results := make([][]stressRecord, ng)
 	var wg sync.WaitGroup
 	// a file every reader goroutine reads
@@ -305,14 +312,16 @@ func concStressChild(args []string) int {
 			for k := 0; k < nops; k++ {
 				switch rng.Intn(7) {
 				case 0, 1: // encode + decode with the shared codec into private memory
-					v := genValues(rng, reflect.TypeOf(rec{}), 1)[0]
+					idx := rng.Intn(len(sharedTypes))
+					shared := sharedCodecs[idx]
+					v := genValues(rng, sharedTypes[idx], 1)[0]
 					w := avro.NewWriteBuf(nil)
 					shared.Write(w, v.Addr().UnsafePointer())
 					b := append([]byte{}, w.Bytes()...)
 					out := reflect.New(v.Type())
 					r := avro.NewReadBuf(b)
 					o, _ := safeCall(func() error { return shared.Read(r, unsafe.Pointer(out.Pointer())) })
-					results[g] = append(results[g], stressRecord{Op: "conc_rt", G: g, Seq: int64(k), Value: projectValue(v), Back: projectValue(out.Elem()), Bytes: byteList(b), Out: o})
+					results[g] = append(results[g], stressRecord{Op: "conc_rt", G: g, Seq: int64(k), Idx: idx, Value: projectValue(v), Back: projectValue(out.Elem()), Bytes: byteList(b), Out: o})
 					select {
 					case banks <- r.ExtractResourceBank(): // closed later by another goroutine
 					default:
@@ -392,7 +401,7 @@ func concStressChild(args []string) int {
 	}
 	defer f.Close()
 	enc := json.NewEncoder(f)
-	enc.Encode(map[string]any{"op": "conc_schema", "schemaText": string(schemaJSON), "fileInputs": fileInputs})
+	enc.Encode(map[string]any{"op": "conc_schema", "schemaTexts": schemaTexts, "fileInputs": fileInputs})
 	for _, s := range sects {
 		enc.Encode(s)
 	}
@@ -586,14 +595,17 @@ func driveC12(c *driverCtx) error {
 			c.rec.Emit(key, map[string]any{"op": "conc_crash", "detail": clipS(stderr.String(), 1500)})
 			continue
 		}
-		var schemaNode node
+		var schemaNodes []node
 		var fileInputs any
 		// section events in sequence-number order, one event
 		var sects []any
 		for _, e := range events {
 			switch e["op"] {
 			case "conc_schema":
-				schemaNode, _ = schemaNodeFromJSON([]byte(e["schemaText"].(string)))
+				for _, t := range e["schemaTexts"].([]any) {
+					sn, _ := schemaNodeFromJSON([]byte(t.(string)))
+					schemaNodes = append(schemaNodes, sn)
+				}
 				fileInputs = e["fileInputs"]
 			case "sect":
 				sects = append(sects, map[string]any{"seq": e["seq"], "sec": e["sec"], "ph": e["ph"]})
@@ -606,7 +618,9 @@ func driveC12(c *driverCtx) error {
 		for _, e := range events {
 			switch e["op"] {
 			case "conc_rt":
-				e["schema"] = schemaNode
+				if idx, _ := e["idx"].(float64); int(idx) < len(schemaNodes) {
+					e["schema"] = schemaNodes[int(idx)]
+				}
 				c.rec.Emit(key, e)
 			case "conc_time":
 				c.rec.Emit(key, e)
